@@ -33,12 +33,13 @@ type gzipResponseWriter struct {
 }
 
 func (g *gzipResponseWriter) WriteHeader(code int) {
-	if g.wroteHeader {
+	if g.headerSent {
 		return
 	}
 
 	// Only record the status: the headers can still change until Finish knows
-	// whether the body goes out compressed
+	// whether the body goes out compressed. A later call replaces an earlier one
+	// (an informational 1xx is followed by the final status).
 	g.statusCode = code
 	g.wroteHeader = true
 }
